@@ -45,6 +45,10 @@ func genKeyed(c *core.Ctx, name string, sp keySpec, uniq *int) (args [][]byte, k
 		return []byte(fmt.Sprintf("%s%d", prefix, *uniq))
 	}
 	key := func() []byte {
+		if t.Choose(16) == 15 {
+			// a key that is exactly a configured prefix
+			return [][]byte{[]byte("p:"), []byte("f:")}[t.Choose(2)]
+		}
 		if t.Choose(2) == 0 {
 			return mk("p:key")
 		}
